@@ -18,6 +18,7 @@ mod diff;
 #[cfg(feature = "std")]
 mod mon_exec;
 mod mon_c06;
+mod mon_c18;
 mod mon_c10;
 mod mon_c09;
 mod mon_c08;
@@ -91,6 +92,7 @@ fn main() {
         #[cfg(feature = "std")]
         "C01" | "C03" | "C04" => mon_exec::run(&a.prop.clone(), &a, &mut rep),
         "C06" => mon_c06::run(&a, &mut rep),
+        "C18" => mon_c18::run(&a, &mut rep),
         "C10" => mon_c10::run(&a, &mut rep),
         "C09" => mon_c09::run(&a, &mut rep),
         "C08" => mon_c08::run(&a, &mut rep),
